@@ -41,6 +41,9 @@ pub struct Scenario {
     pub cred_counter: Option<u32>,
     pub cred_has_hmac: bool,
     pub store_yields: usize,
+    /// an injected status byte 0 is returned as the CTAP1 "success" status value (a store error all the same)
+    #[serde(default)]
+    pub zero_as_ctap1: bool,
 }
 
 #[derive(Clone, Debug, Serialize, Deserialize, PartialEq, Eq, Hash)]
@@ -71,6 +74,7 @@ pub fn execute(run: &Run) -> Result<Observed, String> {
     let store = RefStore::with(sc.disc, initial(sc));
     store.set_faults(run.faults.clone());
     store.set_yields(sc.store_yields);
+    store.set_zero_as_ctap1_success(sc.zero_as_ctap1);
     let uv = ScriptedUv::new(sc.script.clone());
     let cfg = AuthCfg { counter: sc.counter_cfg, hmac: sc.hmac, ..Default::default() };
     let mut auth = Some(cer::build_authenticator(store.clone(), uv, &cfg));
@@ -293,6 +297,7 @@ fn scenario() -> impl Strategy<Value = Scenario> {
             cred_counter,
             cred_has_hmac,
             store_yields,
+            zero_as_ctap1: (store_yields + uv_yields) % 2 == 1,
         })
 }
 
@@ -535,7 +540,7 @@ pub fn check_run(ctx: &mut Ctx, run: &Run) -> Result<(), String> {
 
 pub fn run(ctx: &mut Ctx) {
     ctx.level = "fault_enumeration";
-    ctx.rule = "scenarios = generated product of operation (create / assert / U2F register at the authenticator API, create / assert through Client) x hmac-secret config x counter setting x store capability x rk/up/uv x user-validation outcome and suspensions x algorithm support x pin-auth x exclude/allow list (none, miss, hit) x PRF request x selected credential's counter and secrets x store suspensions. For every scenario: the fault-free run, EVERY fallible store call (find/save/update) of that run failing with each status of {0x00,0x01,0x2E,0x28,0x7F,0xF2,0x19} singly, and cancellation (drop) after EVERY number of polls 0..total; plus generated combinations of 2-3 faults with cancellation; plus histories on the shipped MemoryStore and Option slot whose ceremonies fail by themselves (refused user, excluded credential, unsupported algorithm, PRF the credential cannot serve, U2F key handles registered again or longer than 255 bytes; on a shared map also the selected credential removed by another party while the user is asked), judged by store snapshots before/after. Non-trivial = a run in which a fault was planned or the operation was dropped; distinct by run.".into();
+    ctx.rule = "scenarios = generated product of operation (create / assert / U2F register at the authenticator API, create / assert through Client) x hmac-secret config x counter setting x store capability x rk/up/uv x user-validation outcome and suspensions x algorithm support x pin-auth x exclude/allow list (none, miss, hit) x PRF request x selected credential's counter and secrets x store suspensions. For every scenario: the fault-free run, EVERY fallible store call (find/save/update) of that run failing with each status of {0x00 (as the value the byte decodes to, or as the CTAP1 success value),0x01,0x2E,0x28,0x7F,0xF2,0x19} singly, and cancellation (drop) after EVERY number of polls 0..total; plus generated combinations of 2-3 faults with cancellation; plus histories on the shipped MemoryStore and Option slot whose ceremonies fail by themselves (refused user, excluded credential, unsupported algorithm, PRF the credential cannot serve, U2F key handles registered again or longer than 255 bytes; on a shared map also the selected credential removed by another party while the user is asked), judged by store snapshots before/after. Non-trivial = a run in which a fault was planned or the operation was dropped; distinct by run.".into();
     ctx.assumptions = vec![
         "suspension points are the ones the public traits offer: user validation and every store call (the doubles suspend a generated number of times)".into(),
         "get_info of the store cannot fail (it returns no Result)".into(),
